@@ -48,6 +48,7 @@ def run(chk):
         BM.CONFIG['symbolic_ops'] = False
         it.arith_feasibility = False
     selectors(chk, it)
+    pool_list_kernel(chk, it)
 
 
 # ---------------------------------------------------------------------------------------------------------------
@@ -643,7 +644,18 @@ def _cover_any_int(chk, name, alternatives):
 
 
 def replay_withdraw_selector(kind, nout):
-    """a transaction burning MEL/SYM liquidity tokens in its first output, of the model's kind and output count: settled?"""
+    """a transaction burning MEL/SYM liquidity tokens in its first output, of the model's kind and output count: settled?
+    And a genuine withdrawal whose single output is spent by another transaction of the same block: it must not be settled"""
+    bad, sc, obs = _withdraw_selector_scenario(kind, nout, respent=False)
+    if bad:
+        return bad, sc, obs
+    bad2, sc2, obs2 = _withdraw_selector_scenario(0x53, 1, respent=True)
+    if bad2:
+        return bad2, sc2, obs2
+    return False, sc, dict(obs, respent_variant=obs2)
+
+
+def _withdraw_selector_scenario(kind, nout, respent):
     raw = lambda k: {'txhash': {'hex': ('%02x' % k) * 32}, 'index': 0}
     if kind not in (0x00, 0x51, 0x52, 0x53):
         kind = 0x00
@@ -658,6 +670,12 @@ def replay_withdraw_selector(kind, nout):
           'probes': [{'txhash': {'txhash_of': 'a'}, 'index': 0}, {'txhash': {'txhash_of': 'a'}, 'index': 1}],
           'pools': [{'left': 'MEL', 'right': 'SYM', 'lefts': str(10 ** 9), 'rights': str(10 ** 9), 'liqs': str(10 ** 9)}],
           'melmint_only': 'withdrawals'}
+    if respent:
+        # b spends a's only output (the liquidity tokens) in the same block
+        sc['coins'].append({'id': raw(0x32), 'covhash': {'covhash_of': 'true'}, 'value': '5', 'denom': 'MEL', 'adata': '', 'height': 0})
+        sc['txs'].append({'name': 'b', 'kind': 0, 'inputs': [{'txhash': {'txhash_of': 'a'}, 'index': 0}, raw(0x32)], 'fee': '5',
+                          'covenants': ['true'], 'data': '', 'outputs': [{'covhash': {'covhash_of': 'true'}, 'value': '1000',
+                                                                          'denom': 'LIQ:MEL/SYM', 'adata': '02'}]})
     out = harness.run_replay([sc], 'dev')[0]
     if 'error' in out or 'unrealizable' in out:
         raise Inconclusive('replay: %s' % out)
@@ -669,7 +687,7 @@ def replay_withdraw_selector(kind, nout):
         return True, sc, {'why': 'panic: ' + mm.get('msg', '')[-160:]}
     p0 = (mm.get('probes') or [None])[0]
     settled = p0 is not None and p0.get('denom') == 'MEL'
-    should = kind == 0x53 and nout == 1
+    should = kind == 0x53 and nout == 1 and not respent
     return settled and not should, sc, {'kind': hex(kind), 'outputs': nout, 'settled': settled, 'should_be_settled': should, 'probes': mm.get('probes')}
 
 
@@ -801,6 +819,92 @@ def run_swap_scenario(L, R, reqs, kind=0x51):
 # ---------------------------------------------------------------------------------------------------------------
 
 
+def pool_list_kernel(chk, it):
+    """extract_pool_keys_sorted: every pool named by a request appears exactly once (a pool listed twice would be settled
+    twice in one block); transactions_for_pool: exactly the requests naming the pool"""
+    from mirsym import melmodels as MM
+    from mirsym.interp import mk_option
+    from mirsym.collections import val_lt
+
+    def from_bytes(itp, s_, args, ctx):
+        ok, pk = _poolkey_of_bytes(s_, MM.bytes_id(itp, s_, args[0]))
+        return mk_option(ok, pk)
+    added = [(re.compile(r'PoolKey::from_bytes$'), from_bytes)]
+    it.overrides = added + list(it.overrides)
+    try:
+        n = 3
+        G.reset()
+        G.atomic_domains = {'single:Transaction'}
+        _poolkey_of_bytes.__defaults__[0].clear()
+        st = State()
+        txs = [B.sym_tx('tx' + 'abc'[i], 1, 1, 1, st.pc)[0] for i in range(n)]
+        parsed = [_poolkey_of_bytes(st, tx.fields[5].data['id']) for tx in txs]
+        fn = it.by_last['extract_pool_keys_sorted'][0]
+        outs = it.exec_fn(st, fn, [Ptr(st.alloc(Agg('Vec', txs)))])
+        inputs = {}
+        for i, (ok, pk) in enumerate(parsed):
+            inputs['req%d_names_a_pool' % i] = z3.If(ok, bv(1, 8), bv(0, 8))
+        for i in range(n):
+            for j in range(i + 1, n):
+                inputs['req%d_req%d_same_pool' % (i, j)] = z3.If(val_eq(parsed[i][1], parsed[j][1]), bv(1, 8), bv(0, 8))
+        k = 0
+        for idx, (s, o) in enumerate(outs):
+            if isinstance(o, Panic):
+                continue
+            k += 1
+            res = o.v.fields if isinstance(o.v, Agg) else it.load(s, o.v).fields
+            name = 'extract_pool_keys_sorted/%d' % idx
+            rp = lambda mo: replay_pool_list(chk, mo, inputs)
+            distinct = z3.And([z3.Not(val_eq(res[i], res[j])) for i in range(len(res)) for j in range(i + 1, len(res))] or [z3.BoolVal(True)])
+            chk.obligation('FUNC/every-pool-is-listed-once/' + name, list(s.pc), distinct, inputs, replay=rp,
+                           bound='3 requests, any of which may or may not name a pool, any coincidences between the pools named')
+            complete = z3.And([z3.Implies(ok, z3.Or([val_eq(pk, r) for r in res] or [z3.BoolVal(False)])) for ok, pk in parsed])
+            sound = z3.And([z3.Or([z3.And(ok, val_eq(pk, r)) for ok, pk in parsed]) for r in res] or [z3.BoolVal(True)])
+            chk.obligation('FUNC/listed-pools-are-exactly-the-pools-named/' + name, list(s.pc), z3.And(complete, sound), inputs, replay=rp)
+        if not k:
+            raise Inconclusive('extract_pool_keys_sorted has no returning path')
+    finally:
+        it.overrides = [o for o in it.overrides if o not in added]
+
+
+def replay_pool_list(chk, model, inputs):
+    """three swap requests over two pools (MEL/SYM twice, ERG/MEL once), salted until the lone ERG/MEL request sits between the
+    two MEL/SYM ones in transaction-hash order; the MEL/SYM pool must be settled once"""
+    raw = lambda k: {'txhash': {'hex': ('%02x' % k) * 32}, 'index': 0}
+    L = R = 10 ** 9
+    reqs = [(1_000_000, True), (2_500_000, True)]
+    for salt in range(24):
+        coins, txs, probes = [], [], []
+        spec = [('MEL', '73', reqs[0][0]), ('MEL', '73', reqs[1][0]), ('MEL', '64', 3_000_000)]  # data: "s" = MEL/SYM, "d" = ERG/MEL
+        for i, (den, data, v) in enumerate(spec):
+            coins.append({'id': raw(0x21 + i), 'covhash': {'covhash_of': 'true'}, 'value': str(v + 10), 'denom': den, 'adata': '', 'height': 0})
+            txs.append({'name': 'abc'[i], 'kind': 0x51, 'inputs': [raw(0x21 + i)], 'fee': '0', 'covenants': ['true'], 'data': data,
+                        'outputs': [{'covhash': {'covhash_of': 'true'}, 'value': str(v), 'denom': den, 'adata': ''},
+                                    {'covhash': {'covhash_of': 'true'}, 'value': '10', 'denom': 'MEL', 'adata': '%02x%02x' % (i, salt)}]})
+            probes.append({'txhash': {'txhash_of': 'abc'[i]}, 'index': 0})
+        sc = {'kind': 'batch', 'network': 2, 'height': 5, 'fee_pool': '0', 'tips': '0', 'fee_multiplier': '0', 'dosc_speed': '1000000',
+              'coins': coins, 'txs': txs, 'probes': probes,
+              'pools': [{'left': 'MEL', 'right': 'SYM', 'lefts': str(L), 'rights': str(R), 'liqs': str(L)},
+                        {'left': 'MEL', 'right': 'ERG', 'lefts': str(L), 'rights': str(R), 'liqs': str(L)}], 'melmint_only': 'swaps'}
+        out = harness.run_replay([sc], 'dev')[0]
+        if 'error' in out or 'unrealizable' in out:
+            raise Inconclusive('replay: %s' % out)
+        h = out['txhashes']
+        if not (min(h['a'], h['b']) < h['c'] < max(h['a'], h['b'])):
+            continue
+        run = out['runs'][0]
+        mm = run.get('melmint', {})
+        if run.get('result') != 'Ok':
+            raise Inconclusive('replay: batch rejected: %s' % run.get('result'))
+        if mm.get('panicked'):
+            return True, sc, {'why': 'panic: ' + mm.get('msg', '')[-160:]}
+        want, L2, R2 = ref_swaps(L, R, reqs)
+        got = [int(mm['probes'][i]['value']) if mm['probes'][i] else None for i in (0, 1)]
+        bad = got != want
+        return bad, sc, {'interleaved_order': [h['a'], h['c'], h['b']], 'payouts': got, 'single_settlement_reference': want}
+    raise Inconclusive('could not interleave the requests by transaction hash within 24 salts')
+
+
 POOLKEY_PARSES = z3.Function('poolkey_parses', z3.BitVecSort(256), z3.BoolSort())
 
 
@@ -828,7 +932,7 @@ def _poolkey_of_bytes(st, bid, cache={}):
     return POOLKEY_PARSES(bid), pk
 
 
-def selectors(chk, it):
+def selectors(chk, it, only=None):
     """get_{swap,deposit,withdrawal}_transactions::{closure#0}: which transactions of the block become requests.
     PoolKey::from_bytes is an uninterpreted function of the data bytes here (its own kernel: `poolkey_kernel`)."""
     from mirsym import melmodels as MM
@@ -842,6 +946,8 @@ def selectors(chk, it):
     it.overrides = added + list(it.overrides)
     try:
         for which, kind_name in (('swap', 'Swap'), ('deposit', 'LiqDeposit'), ('withdrawal', 'LiqWithdraw')):
+            if only and which not in only:
+                continue
             for nout in (1, 2):
                 G.reset()
                 G.atomic_domains = {'single:Transaction'}
